@@ -184,7 +184,29 @@ func sameField(a, b *Node) bool {
 func (g *PredGen) Atom(depth int) *Node {
 	r := g.R
 	for {
-		switch r.Intn(15) {
+		switch r.Intn(16) {
+		case 15: // a prefix test joined with a one-sided range whose bound lies inside the prefix region
+			if g.NoKeyPin || len(g.KeyLits) == 0 {
+				continue
+			}
+			l := g.KeyLits[r.Intn(len(g.KeyLits))]
+			if len(l) < 2 {
+				continue
+			}
+			pre := l[:r.Range(1, len(l)-1)]
+			op := []string{">", ">=", "<", "<="}[r.Intn(4)]
+			a := Bin("^=", Key(), Str(pre))
+			b := Bin(op, Key(), Str(l))
+			if r.Chance(1, 4) && !g.Avoid["literal-left-key-compare"] {
+				b = Bin(map[string]string{">": "<", ">=": "<=", "<": ">", "<=": ">="}[op], Str(l), Key())
+			}
+			if r.Bool() {
+				a, b = b, a
+			}
+			if r.Chance(2, 3) {
+				return Or(a, b)
+			}
+			return And(a, b)
 		case 14: // a key list with a foreign key between two keys of one prefix, and that prefix
 			if g.NoKeyPin || len(g.KeyLits) < 3 {
 				continue
